@@ -257,6 +257,7 @@ func c20(ctx *Ctx) (*Outcome, error) {
 	cases = append(cases, c20SharedIDCases()...)
 	cases = append(cases, c20TypelessRootCases()...)
 	cases = append(cases, c20SameNameDefaultCases()...)
+	cases = append(cases, c20TypedRefDefinitionCases()...)
 	n = len(cases)
 	results = make([]res, n)
 	stage.Parallel(n, func(i int) {
@@ -958,6 +959,42 @@ func c20SameNameDefaultCases() []*c20case {
 		}
 		rev.sig += " reversed"
 		out = append(out, &rev)
+	}
+	return out
+}
+
+// c20TypedRefDefinitionCases: a definition that is nothing but a reference into ANOTHER package's schema, with and without a
+// `type` next to the `$ref`, itself referred to several times locally (property, second property, array items): every
+// visit of the definition is qualified with the other package, and the packages build together.
+func c20TypedRefDefinitionCases() []*c20case {
+	var out []*c20case
+	for v := 0; v < 6; v++ {
+		measure := &sg.Schema{Types: []string{"object"}, Props: []sg.Prop{{Name: "value", S: &sg.Schema{Types: []string{"number"}}}, {Name: "unit", S: &sg.Schema{Types: []string{"string"}}}}, Required: []string{"value"}}
+		b := &sg.Schema{ID: "https://example.com/typedref/b", Types: []string{"object"}, Defs: []sg.Prop{{Name: "Measure", S: measure}}, Props: []sg.Prop{{Name: "bNo", S: &sg.Schema{Types: []string{"integer"}}}}}
+		unit := jsonx.Obj{{K: "$ref", V: "b.json#/$defs/Measure"}}
+		if v%2 == 0 {
+			unit = append(jsonx.Obj{{K: "type", V: "object"}}, unit...)
+		}
+		local := func() *sg.Schema { return &sg.Schema{Extra: jsonx.Obj{{K: "$ref", V: "#/definitions/Unit"}}} }
+		a := &sg.Schema{ID: "https://example.com/typedref/a", Types: []string{"object"}, Props: []sg.Prop{{Name: "first", S: local()}, {Name: "second", S: local()},
+			{Name: "series", S: &sg.Schema{Types: []string{"array"}, Items: local()}}, {Name: "aNo", S: &sg.Schema{Types: []string{"integer"}}}}}
+		a.Extra = append(a.Extra, jsonx.KV{K: "definitions", V: jsonx.Obj{{K: "Unit", V: unit}}})
+		if (v/2)%3 == 1 {
+			// a direct cross-file reference before the local ones
+			a.Props = append([]sg.Prop{{Name: "aDirect", S: &sg.Schema{Ref: "b.json#/$defs/Measure", Target: measure}}}, a.Props...)
+		}
+		fa := &sg.SchemaFile{Path: "a.json", Root: a, ID: a.ID, Name: "a"}
+		fb := &sg.SchemaFile{Path: "b.json", Root: b, ID: b.ID, Name: "b"}
+		c := &c20case{fs: &sg.FileSet{Files: []*sg.SchemaFile{fa, fb}}, maps: map[string]c20map{}, sig: fmt.Sprintf("typed-ref-definition v=%d", v)}
+		if (v/2)%3 == 2 {
+			c.fs.Files = []*sg.SchemaFile{fb, fa}
+		}
+		for _, f := range []*sg.SchemaFile{fa, fb} {
+			m := c20map{pkg: c20Mod + "/p" + f.Name, out: "p" + f.Name + "/gen.go", rootType: f.RootType()}
+			c.maps[f.Name] = m
+			c.flags = append(c.flags, "--schema-package", f.ID+"="+m.pkg, "--schema-output", f.ID+"="+m.out)
+		}
+		out = append(out, c)
 	}
 	return out
 }
